@@ -73,7 +73,7 @@ CLAIMS['C20'] = dict(
   text='Decides the structural part only: the operand handed to the least-squares solver in svd_incomplete is a matrix and '
        'the right-hand side 1-/2-D (the defect that made the function raise for every input); contractions on the path '
        'are consistent where typed; the result is a list of d three-axis float cores; sample_tt returns '
-       '(int [rows,d], [d+1], [d]) as the consumer expects; the rank of the skeleton helper is max(1, min(cap, len - dropped)).',
+       '(int [rows,d], [d+1], [d]) as the consumer expects; every mode index is fitted against its own rows (both least-squares operands vary with the loop over the mode index); the rank of the skeleton helper is max(1, min(cap, len - dropped)) as a value.',
   note='Not decided: recovery of the sampled tensor (numerical, generic), the block layout values.')
 
 CLAIMS['C01'] = dict(
@@ -111,7 +111,7 @@ CLAIMS['C11'] = dict(
        '(dense convenience path of accuracy). Grid sizes n_k >= 2 assumed for the Chebyshev routines.')
 
 CLAIMS['C02'] = dict(
-  technique='orthogonality typestate (abstract interpretation with qr/rq/svd/eigh axioms) + unit/homogeneity facet + constant-folded rank formula + forwarding rules',
+  technique='orthogonality typestate (abstract interpretation with qr/rq/svd/eigh axioms) + unit/homogeneity facet + rank selection as a value (prefix-mask count domain, exact integer joins, grid evaluation of the truncated bond) + forwarding rules',
   text='Decides the structural part only: in the right-to-left sweep of truncate the factor kept in each finished core has '
        'orthonormal rows and the weights travel left, in eigen and SVD mode (the rule that found the SVD-mode defect); the three '
        'm-vs-n selectors of matrix_svd agree on every ordering; pivot, norm core and sweep start coincide; tail energies (sigma^2) '
@@ -123,7 +123,7 @@ CLAIMS['C02'] = dict(
   note='Not decided: the inequality ||Y-Z|| <= e||Y||, quasi-optimal ranks as values, behaviour exactly at a threshold, rounding. '
        'Trusted: orthogonality axioms of LAPACK-backed factorizations.')
 CLAIMS['C03'] = dict(
-  technique='orthogonality typestate + factor summaries per give_to literal + unit facet + constant-folded rank formula + shape typing',
+  technique='orthogonality typestate + factor summaries per give_to literal + unit facet + rank selection as a value (prefix-mask count domain, exact integer joins, grid evaluation of the truncated bond) + shape typing',
   text='Decides the structural part only: every finished core of TT-SVD has orthonormal columns and the weights travel with the '
        'remainder (the rule that found the scale-dependent defect); matrix_skeleton returns (weighted, rows)/(cols, weighted)/'
        '(half, half) for give_to l/r/m and matrix_svd an orthonormal-row right factor on both Gram sides; selectors agree; '
@@ -146,7 +146,7 @@ CLAIMS['C16'] = dict(
        'optima_tt_beam in their stabilised modes (d = 2,3) the scale of the returned mantissas plus the returned exponent equals '
        'the scale of the input, exactly, as linear forms in the fresh exponent symbols; log2 is guarded by the threshold test; '
        'the exponent is an integer; 2**(p1-p2) is dominated by both saturation guards; orthogonalize and mul_scalar rescale at '
-       'every step of their core loops (the core_stab call depends on use_stab only).',
+       'every step of their core loops (the core_stab calls of the abstract run are counted per step, none re-scales an orthonormal core, none sits under a test of a magnitude).',
   note='Not decided: that mantissas stay in range for thousands of dimensions, rounding, coincidence of stabilised and plain '
        'values. Ledger axioms for qr/rq/svd/eigh are trusted.')
 
@@ -163,7 +163,7 @@ CLAIMS['C05'] = dict(
 CLAIMS['C08'] = dict(
   technique='abstract execution of the rejections with literal shapes + shape typing + select/mask ordering rule + guarded-division rule',
   text='Decides a narrow structural part: maxvol rejects n <= r and accepts tall input, maxvol_rect rejects inconsistent '
-       'dr_min/dr_max, _maxvol clamps before an exhaustive dispatch; maxvol returns (int [r], [n, r]) and the LU / triangular '
+       'dr_min/dr_max, _maxvol dispatches to the identity selection / maxvol / maxvol_rect with dr_max clamped to n - r and dr_min to dr_max (call log of the abstract run on a literal grid); maxvol returns (int [r], [n, r]) and the LU / triangular '
        'solves / rank-one update / identity rows are dimension consistent; in maxvol_rect a selected row is masked before F is '
        're-masked in the same iteration and the maxvol rows are masked first; the carried squared row norms are updated to '
        'F - l v**2 (polynomial identity); the pivot division is behind the |B[i,j]| <= e '
